@@ -7,7 +7,7 @@ WT="/tmp/ts-$TAG"
 git -C /repo worktree add -q --detach "$WT" HEAD || exit 2
 VERIF_DIR="${VERIF_DIR:-/verif}"
 trap 'git -C /repo worktree remove --force "$WT" >/dev/null 2>&1; rm -rf "$WT" "$VERIF_DIR/build/"*"-$TAG"' EXIT
-git -C "$WT" apply "$PATCH" || { echo "patch does not apply"; exit 2; }
+git -C "$WT" apply "$PATCH" 2>/dev/null || git -C "$WT" apply --3way "$PATCH" || { echo "patch does not apply"; exit 2; }
 export VERIF_REPO="$WT" VERIF_BUILD_TAG="$TAG" VERIF_EVIDENCE_DIR="/tmp/ts-ev-$TAG" VERIF_REPLAY_DIR="/tmp/ts-ev-$TAG/replays"
 for id in "$@"; do
   start=$(date +%s)
